@@ -222,9 +222,10 @@ def trace(repo="/repo"):
     n0 = g.nodes[pix[0, 0].n]
     if n0[0] != "sub" or g.nodes[n0[1]][0] != "mul":
         raise st.Unsupported("compute_pixels: returned value is not vectors * d1 - centre")
-    d1 = g.nodes[n0[1]][2]
-    if g.nodes[d1][0] != "div":
+    quots = [j for j in g.nodes[n0[1]][1:] if g.nodes[j][0] == "div"]       # either operand order
+    if len(quots) != 1:
         raise st.Unsupported("compute_pixels: d1 is not a quotient")
+    d1 = quots[0]
     num, lsq = g.nodes[d1][1], g.nodes[d1][2]
     if g.nodes[num][0] not in ("sub", "add") or sq not in g.nodes[num][1:]:
         raise st.Unsupported("compute_pixels: numerator of d1 is not ldotc -/+ sqrt(..)")
